@@ -6,13 +6,15 @@
     * `execSet_errs_char` / `execSet_errs_mono`: the specification executes everything, so its errors for
       a part of a selection set are (by path) among its errors for the whole;
     * `container_errs_paths` / `run_errs_paths_mergeable`: every error of the executor model has the
-      response path of an error of the specification, repeated response keys included.
+      response path of an error of the specification, repeated response keys included;
+    * `deepEnough_of_fuelBound`: on documents with acyclic fragment spreads (`FragsAcyclic`) the drivers'
+      fuel bound is never exhausted (potential: selections below + fragments of smaller rank).
 -/
 import AGV.Lemmas.ExecStaticMergeExec
 
 namespace AGV.Lemmas.ExecStaticMerge
 open AGV.Core AGV.Model.ExecStatic AGV.Lemmas.ExecStatic AGV.Lemmas.ExecStaticData
-open AGV.Spec.Exec (FieldOcc complete execSet group mapIdx serializeLeaf doesApply excluded argValue)
+open AGV.Spec.Exec (FieldOcc complete execSet group mapIdx serializeLeaf doesApply excluded argValue selCount fuelBound)
 
 -- ------------------------------------------------------------------ error lists compared by response path
 
@@ -833,5 +835,223 @@ end
     only spreads fragments of smaller rank -/
 def FragsAcyclic (d : Doc) : Prop :=
   ∃ rank : String → Nat, ∀ f ∈ d.frags, ∀ n ∈ selsSpreadNames f.sels, n ∈ d.frags.map (·.name) → rank n < rank f.name
+
+-- ------------------------------------------------------------------ the drivers' fuel bound suffices on acyclic documents
+
+/-- weight of the fragments of rank below `r` -/
+def fragWeight (rank : String → Nat) (frags : List FragDef) (r : Nat) : Nat :=
+  ((frags.filter (fun g => decide (rank g.name < r))).map (fun g => 1 + selCount g.sels)).sum
+
+theorem fragWeight_mono (rank : String → Nat) (frags : List FragDef) (r r' : Nat) (h : r ≤ r') :
+    fragWeight rank frags r ≤ fragWeight rank frags r' := by
+  unfold fragWeight
+  induction frags with
+  | nil => simp
+  | cons g gs ih =>
+    simp only [List.filter_cons]
+    by_cases h1 : rank g.name < r
+    · have h2 : rank g.name < r' := by omega
+      simp only [h1, h2, decide_true, if_true, List.map_cons, List.sum_cons]
+      omega
+    · by_cases h2 : rank g.name < r'
+      · simp only [h1, h2, decide_true, decide_false, if_true, Bool.false_eq_true, if_false, List.map_cons, List.sum_cons]
+        omega
+      · simp only [h1, h2, decide_false, Bool.false_eq_true, if_false]
+        exact ih
+
+theorem fragWeight_step (rank : String → Nat) (frags : List FragDef) (f : FragDef) (hf : f ∈ frags) :
+    fragWeight rank frags (rank f.name) + (1 + selCount f.sels) ≤ fragWeight rank frags (rank f.name + 1) := by
+  unfold fragWeight
+  induction frags with
+  | nil => simp at hf
+  | cons g gs ih =>
+    simp only [List.filter_cons]
+    simp only [List.mem_cons] at hf
+    by_cases h1 : rank g.name < rank f.name
+    · have h2 : rank g.name < rank f.name + 1 := by omega
+      simp only [h1, h2, decide_true, if_true, List.map_cons, List.sum_cons]
+      rcases hf with rfl | hf
+      · omega
+      · have := ih hf; omega
+    · by_cases h2 : rank g.name < rank f.name + 1
+      · simp only [h1, h2, decide_true, decide_false, if_true, Bool.false_eq_true, if_false, List.map_cons, List.sum_cons]
+        rcases hf with rfl | hf
+        · have := fragWeight_mono rank gs (rank f.name) (rank f.name + 1) (by omega)
+          unfold fragWeight at this
+          omega
+        · have := ih hf; omega
+      · simp only [h1, h2, decide_false, Bool.false_eq_true, if_false]
+        rcases hf with rfl | hf
+        · omega
+        · exact ih hf
+
+theorem fragWeight_le_all (rank : String → Nat) (frags : List FragDef) (r : Nat) :
+    fragWeight rank frags r ≤ (frags.map (fun g => 1 + selCount g.sels)).sum := by
+  unfold fragWeight
+  induction frags with
+  | nil => simp
+  | cons g gs ih =>
+    simp only [List.filter_cons]
+    split <;> simp only [List.map_cons, List.sum_cons] <;> omega
+
+/-- every defined fragment spread below `sels` has rank < `r` -/
+def Bnd (d : Doc) (rank : String → Nat) (r : Nat) (sels : List Sel) : Prop :=
+  ∀ n ∈ selsSpreadNames sels, n ∈ d.frags.map (·.name) → rank n < r
+
+theorem bnd_cons (d : Doc) (rank : String → Nat) (r : Nat) (s : Sel) (rest : List Sel) (h : Bnd d rank r (s :: rest)) :
+    Bnd d rank r [s] ∧ Bnd d rank r rest := by
+  constructor
+  · intro n hn; exact h n (by simp only [selsSpreadNames, List.append_nil, List.mem_append] at hn ⊢; exact Or.inl hn)
+  · intro n hn; exact h n (by simp only [selsSpreadNames, List.mem_append]; exact Or.inr hn)
+
+theorem selCount_cons_ge (s : Sel) (rest : List Sel) : selCount rest ≤ selCount (s :: rest) ∧ selCount [s] ≤ selCount (s :: rest) := by
+  cases s <;> simp [selCount] <;> omega
+
+/-- an occurrence collected from `sels`: its sub-selections are strictly lighter (selections + fragments
+    still enterable), because a fragment only spreads fragments of smaller rank -/
+theorem collect_lighter (c : Model.ExecStatic.Ctx) (rt : String) (rank : String → Nat)
+    (hac : ∀ f ∈ c.d.frags, ∀ n ∈ selsSpreadNames f.sels, n ∈ c.d.frags.map (·.name) → rank n < rank f.name) :
+    ∀ (k : Nat) (st : String) (sels : List Sel) (r : Nat), Bnd c.d rank r sels →
+      ∀ occ ∈ Model.ExecStatic.collect c rt k st sels,
+        ∃ r', Bnd c.d rank r' occ.sels ∧
+          selCount occ.sels + fragWeight rank c.d.frags r' < selCount sels + fragWeight rank c.d.frags r := by
+  intro k
+  induction k with
+  | zero => intro st sels r _ occ h; simp [Model.ExecStatic.collect] at h
+  | succ k ih =>
+    intro st sels
+    induction sels with
+    | nil => intro r _ occ h; simp [Model.ExecStatic.collect] at h
+    | cons s rest ihr =>
+      intro r hb occ hocc
+      obtain ⟨hb1, hb2⟩ := bnd_cons _ _ _ _ _ hb
+      obtain ⟨hc1, hc2⟩ := selCount_cons_ge s rest
+      rw [collect_cons, List.mem_append] at hocc
+      rcases hocc with hocc | hocc
+      · cases s with
+        | field al n args ds ss pos =>
+          simp [Model.ExecStatic.collect] at hocc
+          subst hocc
+          refine ⟨r, ?_, ?_⟩
+          · intro m hm; exact hb1 m (by simpa [selsSpreadNames, selSpreadNames] using hm)
+          · simp only [selCount] at hc2 ⊢; omega
+        | spread n ds pos =>
+          cases hf : c.d.frag? n with
+          | none => simp [Model.ExecStatic.collect, hf] at hocc
+          | some f =>
+            have hfm := frag_mem c.d n f hf
+            have hfn : f.name = n := by
+              unfold Doc.frag? at hf
+              simpa using List.find?_some hf
+            have hrn : rank n < r := hb1 n (by simp [selsSpreadNames, selSpreadNames])
+              (by rw [← hfn]; exact List.mem_map_of_mem hfm)
+            have hbf : Bnd c.d rank (rank n) f.sels := by
+              intro m hm hex
+              rw [← hfn]
+              exact hac f hfm m hm hex
+            have hin : occ ∈ Model.ExecStatic.collect c rt k rt f.sels ∨ occ ∈ Model.ExecStatic.collect c rt k st f.sels := by
+              simp only [Model.ExecStatic.collect, hf, List.map_cons, List.map_nil, List.flatten_cons, List.flatten_nil,
+                List.append_nil] at hocc
+              split at hocc
+              · exact Or.inl hocc
+              · split at hocc
+                · exact Or.inr hocc
+                · simp at hocc
+            have hstep := fragWeight_step rank c.d.frags f hfm
+            rw [hfn] at hstep
+            have hmono := fragWeight_mono rank c.d.frags (rank n + 1) r (by omega)
+            have hsel : 1 ≤ selCount (Sel.spread n ds pos :: rest) := by simp [selCount]
+            rcases hin with hin | hin
+            · obtain ⟨r', b', l'⟩ := ih _ f.sels (rank n) hbf occ hin
+              exact ⟨r', b', by omega⟩
+            · obtain ⟨r', b', l'⟩ := ih _ f.sels (rank n) hbf occ hin
+              exact ⟨r', b', by omega⟩
+        | inline cond ds ss pos =>
+          have hbs : Bnd c.d rank r ss := by
+            intro m hm; exact hb1 m (by simpa [selsSpreadNames, selSpreadNames] using hm)
+          have hcs : selCount ss < selCount (Sel.inline cond ds ss pos :: rest) := by simp only [selCount]; omega
+          have hin : occ ∈ Model.ExecStatic.collect c rt k rt ss ∨ occ ∈ Model.ExecStatic.collect c rt k st ss := by
+            cases cond with
+            | none =>
+              simp only [Model.ExecStatic.collect, List.map_cons, List.map_nil, List.flatten_cons, List.flatten_nil,
+                List.append_nil] at hocc
+              exact Or.inr hocc
+            | some t =>
+              simp only [Model.ExecStatic.collect, List.map_cons, List.map_nil, List.flatten_cons, List.flatten_nil,
+                List.append_nil] at hocc
+              split at hocc
+              · exact Or.inl hocc
+              · split at hocc
+                · exact Or.inr hocc
+                · simp at hocc
+          rcases hin with hin | hin
+          · obtain ⟨r', b', l'⟩ := ih _ ss r hbs occ hin
+            exact ⟨r', b', by omega⟩
+          · obtain ⟨r', b', l'⟩ := ih _ ss r hbs occ hin
+            exact ⟨r', b', by omega⟩
+      · obtain ⟨r', b', l'⟩ := ihr r hb2 occ hocc
+        exact ⟨r', b', by omega⟩
+
+theorem deepEnough_of_weight (c : Model.ExecStatic.Ctx) (rank : String → Nat)
+    (hac : ∀ f ∈ c.d.frags, ∀ n ∈ selsSpreadNames f.sels, n ∈ c.d.frags.map (·.name) → rank n < rank f.name) :
+    ∀ (F : Nat) (st rt : String) (sels : List Sel) (r : Nat), Bnd c.d rank r sels →
+      selCount sels + fragWeight rank c.d.frags r < F → deepEnough c F st rt sels = true := by
+  intro F
+  induction F with
+  | zero => intro st rt sels r _ h; omega
+  | succ F ih =>
+    intro st rt sels r hb hw
+    simp only [deepEnough, List.all_eq_true]
+    intro occ hocc
+    obtain ⟨r', b', l'⟩ := collect_lighter c rt rank hac (F + 1) st sels r hb occ hocc
+    cases hfd : c.S.field? rt occ.name with
+    | none => rfl
+    | some fd =>
+      simp only [List.all_eq_true]
+      intro ty _
+      exact ih _ _ _ r' b' (by omega)
+
+theorem sum_map_ge_of_mem {α} (f : α → Nat) (l : List α) (a : α) (h : a ∈ l) : f a ≤ (l.map f).sum := by
+  induction l with
+  | nil => simp at h
+  | cons x xs ih =>
+    simp only [List.mem_cons] at h
+    simp only [List.map_cons, List.sum_cons]
+    rcases h with rfl | h
+    · omega
+    · have := ih h; omega
+
+/-- on a document with acyclic fragment spreads the drivers' fuel bound is never exhausted -/
+theorem deepEnough_of_fuelBound (c : Model.ExecStatic.Ctx) (hac : FragsAcyclic c.d) (op : OpDef) (hop : op ∈ c.d.ops)
+    (F : Nat) (hF : fuelBound c.d ≤ F) (st rt : String) : deepEnough c F st rt op.sels = true := by
+  obtain ⟨rank, hrank⟩ := hac
+  let R := (c.d.frags.map (fun g => rank g.name)).sum + 1
+  have hb : Bnd c.d rank R op.sels := by
+    intro n _ hex
+    simp only [List.mem_map] at hex
+    obtain ⟨g, hg, rfl⟩ := hex
+    have := sum_map_ge_of_mem (fun g => rank g.name) c.d.frags g hg
+    show rank g.name < (c.d.frags.map (fun g => rank g.name)).sum + 1
+    omega
+  apply deepEnough_of_weight c rank hrank F st rt op.sels R hb
+  have h1 := fragWeight_le_all rank c.d.frags R
+  have h2 := sum_map_ge_of_mem (fun o : OpDef => selCount o.sels) c.d.ops op hop
+  unfold fuelBound at hF
+  omega
+
+theorem selectOp_mem (d : Doc) (opName : Option String) (op : OpDef) (h : AGV.Spec.Exec.selectOp d opName = some op) :
+    op ∈ d.ops := by
+  unfold AGV.Spec.Exec.selectOp at h
+  cases opName with
+  | some n => exact List.mem_of_find?_eq_some h
+  | none =>
+    simp only at h
+    split at h
+    · rename_i o heq
+      simp only [Option.some.injEq] at h
+      subst h
+      rw [heq]
+      exact List.mem_singleton.2 rfl
+    · simp at h
 
 end AGV.Lemmas.ExecStaticMerge
